@@ -1,8 +1,9 @@
 // op guess (C18): ScanSnapshot with GuessPaths on a generated file-system
 // layout (materialised under /tmp/vhg/...), with remote roots renamed.
 // guess id content localgoroot localgopaths fs expect | snap goroot gopaths gomods
-//   fs      = "path=contenthex;..." of every regular file of the layout
-//   expect  = per frame of the dump, in order: "class|local|rel|import" or "?" when the layout is ambiguous for it
+//
+//	fs      = "path=contenthex;..." of every regular file of the layout
+//	expect  = per frame of the dump, in order: "class|local|rel|import" or "?" when the layout is ambiguous for it
 package main
 
 import (
@@ -303,4 +304,3 @@ func relOrEmpty(f gfile) string {
 	}
 	return f.rel
 }
-
